@@ -3,7 +3,7 @@
 # Applies the change to a scratch copy of /repo (outside /repo and /verif), runs the command with
 # VERIF_REPO_DIR pointing at it, then removes the copy.
 set -e
-PATCH="$1"; shift
+PATCH="$(realpath "$1")"; shift
 D=$(mktemp -d /tmp/mutant.XXXXXX)
 trap 'rm -rf "$D"' EXIT
 cp -r /repo/statham "$D/statham"
